@@ -1016,6 +1016,52 @@ func v1Fieldwise(in Input) bool {
 	return false
 }
 
+// matchStats counts, per (v2 document, validator), how the proposer entries apply: none, exactly
+// one, several (only the first may count), and whether the applicable entry is preceded by
+// non-matching ones.  Computed from the input with the documented meaning of the selectors.
+func matchStats(in Input, col *Collector) {
+	dec := json.NewDecoder(strings.NewReader(in.Doc))
+	dec.UseNumber()
+	var doc map[string]any
+	if err := dec.Decode(&doc); err != nil {
+		return
+	}
+	if n, ok := doc["version"].(json.Number); !ok || string(n) != "2" {
+		return
+	}
+	props, _ := doc["proposers"].([]any)
+	for _, v := range in.Validators {
+		var hits []int
+		for i, p := range props {
+			m, _ := p.(map[string]any)
+			sel, _ := m["proposer"].(string)
+			switch {
+			case strings.HasPrefix(sel, "0x"):
+				if strings.EqualFold(sel, v.Pubkey) {
+					hits = append(hits, i)
+				}
+			case sel != "":
+				if _, err := regexp.Compile(sel); err == nil {
+					if re, err := regexp.Compile(documented(sel)); err == nil && re.MatchString(v.specName()) {
+						hits = append(hits, i)
+					}
+				}
+			}
+		}
+		switch {
+		case len(hits) == 0:
+			col.Count("v2-entries-matching:none")
+		case len(hits) == 1:
+			col.Count("v2-entries-matching:one")
+		default:
+			col.Count("v2-entries-matching:several")
+		}
+		if len(hits) > 0 && hits[0] > 0 {
+			col.Count("v2-first-match-not-first-entry")
+		}
+	}
+}
+
 func TestC10(t *testing.T) {
 	col := NewCollector("C10", "Check.C10",
 		"execution-config documents (v2: 0-4 relays, 0-4 proposer entries with every presence pattern of fee/gas/grace/min/public key at the four levels, overlapping key and account selectors, reset/disabled/new relays; legacy v1; a malformed stream), each looked up for 4-7 validators, marshalled, unmarshalled and looked up again; non-trivial = the document is accepted and some validator gets a relay or a fee recipient other than the fallback; distinct by document + validators")
@@ -1035,6 +1081,7 @@ func TestC10(t *testing.T) {
 			in.Tags = append(in.Tags, "v1-fieldwise")
 			col.Count("v1:own-entry-incomplete")
 		}
+		matchStats(in, col)
 		id := col.NextID()
 		term, obs := run(in, id)
 		if obs.OK1 {
